@@ -216,6 +216,14 @@ def run(ctx):
             unsafe_blocks.append(f.name)
     chk.ob("C20.c", "recoverable [no unsafe]", not unsafe_blocks, "the module contains no unsafe code" if not unsafe_blocks else f"unsafe code in {sorted(set(unsafe_blocks))}: the Arc/Weak protocol is bypassed", "metrics-util/src/recoverable.rs")
 
+    _imports(ctx)
+
+
+def _imports(ctx):
+    from props.common import import_rules
+
+    import_rules(ctx, "C02", {"C02.a", "C02.b", "C02.c"}, "C20.d", "imported from C02 (install goes through set_global_recorder): single strong CAS, publication order, hand-back of the rejected recorder — otherwise a failed second install can wedge or replace the installed recoverable recorder", floor=10)
+
 
 def run_config(ctx):
     run(ctx)
